@@ -10,13 +10,19 @@ def optSt (o : Option Int) : String := match o with | some s => toString s | non
 /-- state: the flock table for the scripted (interposed) run -/
 def step (t : Table) (ws : List String) : Table × String :=
   match ws with
-  | ["flags", op, mode, ret] =>
-    -- the flock() call zix makes (fd is the handle's), and the status for a scripted kernel result
-    match parseMode mode, (if ret == "ok" then some (0 : Int) else errnoOf ret) with
-    | some m, some e =>
+  | "flags" :: op :: mode :: ret :: rest =>
+    -- the flock() call zix makes (fd is the handle's), and the status for a scripted kernel result: the first
+    -- `times` calls (default 1) fail with the given errno, later ones succeed
+    match parseMode mode, (if ret == "ok" then some (0 : Int) else errnoOf ret), (match rest with | [] => some 1 | [k] => k.toNat? | _ => none) with
+    | some m, some e, some times =>
       let fl := if op == "lock" then lockFlags m else unlockFlags m
-      (t, s!"st={if e = 0 then 0 else errnoStatus e} | flock-flags={fl}")
-    | _, _ => (t, "bad-op")
+      if op == "lock" ∧ e = 4 then
+        -- interrupted `times` times, then granted (scripted: the table is free)
+        let r := fileLockSig ⟨[]⟩ 0 m times
+        (t, s!"st={optSt r.2.1} calls={r.2.2} | flock-flags={fl}")
+      else
+        (t, s!"st={if e = 0 ∨ times = 0 then 0 else errnoStatus e} calls=1 | flock-flags={fl}")
+    | _, _, _ => (t, "bad-op")
   | ["reset"] => (⟨[]⟩, "reset")
   | ["lock", h, mode] =>
     match h.toNat?, parseMode mode with
@@ -32,6 +38,8 @@ def step (t : Table) (ws : List String) : Table × String :=
     | none => (t, "bad-op")
   -- unlocking releases the lock whatever state the stream is in (theorem unlock_releases: flock(LOCK_UN) is the only effect)
   | ["dirtyunlock", _] => (t, "unlock-st=0 released=1")
+  -- theorem block_interrupted_returns_only_when_acquired
+  | ["sigwait", _] => (t, "st=0 after-release=1")
   | ["contend", _, _, _] => (t, "violations=0 acquired=all blocked-until-release=1")
   | _ => (t, "bad-op")
 
